@@ -14,17 +14,17 @@ LEVEL_TEXT = {
  "C03": "PLA.tla (the hull machine on a grid) and MCSegmentation.tla (all arrays S(9,7)/S(10,8), eps 0..3, 1-3 chunks) are checked by TLC against an oracle that shares nothing with the hull code (a line through two band corners inside every band, integer cross-multiplication): accepted prefixes are feasible, the rectangle's diagonals are the extreme feasible slopes, the reported line is within eps+1/2 of every point. On the code side hook H1 records every point handed to the builder and the reported lines of direct make_segmentation(_par) calls; TLC evaluates ordering, first-occurrence coverage, feasibility and the eps distance on what was recorded.",
  "C04": "as C03: Maximal (no line fits a segment plus the next point, by the oracle), the count equals the optimum computed by dynamic programming over the oracle (and by oracle-greedy, shown equal), starts more than 2eps ranks apart, count bounds; on recordings TLC evaluates maximality (segments up to 26 points), the optimum (arrays up to 120 keys), start distances and count bounds for level 0 and, through the hook, for every upper level of recorded PGMIndex builds.",
  "C05": "TLC checks exhaustively, on DynamicPGM.tla (an action-per-critical-section transcription of insert/merge cascade and of find/lower_bound), that point queries equal the ordered-map meaning for every history of the small configurations (incl. every history of any length over 4 keys in thorough); the real class is bound to it by trace validation: every answer of find/count/lower_bound after every update of seeded, TLC-generated and witness histories is judged by TLC against the map (tier A), and the logged layout must equal the model's state (tier B).",
- "C06": "as C05 for traversal from begin()/every lower_bound, range(lo,hi) for every lo<=hi, size and empty: the iterator (cursor per level + loser-tree tie-breaking, equal-key and tombstone skipping) and range() are transcribed in DynamicPGM.tla and checked by TLC; every recorded traversal/range/size/empty of the real class is judged by TLC.",
+ "C06": "as C05 for traversal from begin()/every lower_bound, range(lo,hi) for every lo<=hi, size and empty: the iterator (cursor per level + loser-tree tie-breaking, equal-key and tombstone skipping) and range() are transcribed in DynamicPGM.tla and checked by TLC; every recorded traversal/range/size/empty of the real class is judged by TLC. The tournament tree itself is modelled cell by cell in LoserTree.tla (WinnerIsMin, TournamentOK, liveness Drained on every choice of <= 4-5 short sequences; a replay without the source tie-break must fail) and the real pgm::internal::LoserTree, driven as the iterator drives it, is validated against it line by line.",
  "C07": "C07a/C07b are invariants of PGMIndex.tla (responsible segment within EpsRec+1 of the prediction, <= 2EpsRec+3 segments touched, scan inside the window, level sizes) on all small inputs; on the code side hook H2 records the descent of every query (predicted position, window, chosen segment, level size) and hook H1 the segmentation of every upper level; TLC checks the same bounds and that the chosen segment is the rightmost one starting at or before the key.",
- "C08": "tier A holds CompressedPGMIndex to the search contract on every recorded query (all arrays of small universes, structured and clustered 64-bit inputs, EpsRec 0 / small / 256); the per-level routing (window scan and windowed binary search) is model-checked in Variants.tla under the premise that the prediction is within EpsRec+1 of the responsible segment, and the PGMIndex search model covers the rest.",
+ "C08": "tier A holds CompressedPGMIndex to the search contract on every recorded query (all arrays of small universes, structured and clustered 64-bit inputs, EpsRec 0 / small / 256); levels much longer than the routing window with EpsRec just above the linear-scan threshold, forced and real chunked builds); the per-level routing (window scan and windowed binary search) is model-checked in Variants.tla under the premise that the prediction is within EpsRec+1 of the responsible segment, CompIntercepts.tla checks the clamped, Elias-Fano coded intercepts (builder preconditions, decoded value within Eps of the rank, and NoUpwardShift: the lower clamp never binds when segments start > 2 Eps ranks apart - the chunk-seam variant must fail), and the PGMIndex search model covers the rest.",
  "C09": "Variants.tla (bucketing mode) enumerates every set of segment keys of a 3-bit (thorough: 4-bit) universe for TopLevelSize 2,3,4,5,8: the table fill with its overflow guard and the bucket->slice->upper_bound-1 lookup return the responsible segment and stay in bounds; recordings expose step, table, bucket, slice and chosen segment of every query through a subclass and TLC checks the same, plus the search contract and the empty ranges outside [first,last].",
  "C10": "Variants.tla (eliasfano mode) encodes every non-decreasing key set of the small universe with low widths 1..3 and transcribes pred() branch by branch (beyond-universe, bucket selection by select0, binary search on the low bits, prev on the high bits): TLC checks it returns the rightmost element <= key and never selects out of range; recordings log pred() (friend accessor) for every query and TLC checks it against the segment keys, plus the search contract.",
  "C11": "Mapped.tla (queries mode) checks lower_bound / upper_bound (bounded search + gallop + final search) / count / contains against the sequence oracles for every sorted sequence with long runs over a tiny universe, every admissible range of the abstract static index and every query; recordings log the answers of every open container and the sequence read back through begin()/end(), judged by TLC.",
- "C12": "Mapped.tla (files mode) explores every order of CreateFromRange / CreateFromRaw / Reopen / Close on two files (<= 6-7 actions): all files identical, headers describe the data, reopening and closing change nothing; TLC's orders are executed on the real class in a scratch directory and the logged content classes, header fields and answers are judged by TLC.",
+ "C12": "Mapped.tla (files mode) explores every order of CreateFromRange / CreateFromRaw / Reopen / Close on two files (<= 6-7 actions): all files identical, headers describe the data, reopening and closing change nothing; TLC's orders are executed on the real class in a scratch directory (under a descriptor limit of 48 + shards, so that a construction that keeps a descriptor makes later constructions of the same run fail) and the logged content classes, header fields and answers are judged by TLC.",
  "C13": "Multidim.tla is the Z-order scan as a state machine (Start, First, Hit, Miss, Jump, Exhausted) with bigmin transcribed bit by bit: TLC checks, for every multiset of <= 3-4 codes of the 4x4 grid, every box and miss thresholds 0..2, that the produced sequence is a prefix of / equals the stored codes inside the box, that bigmin equals its oracle for every triple, in-boundness, and termination under fairness; recordings on dense grids (so that the real threshold of 64 misses is exceeded) are compared by TLC with the points in the box sorted by the specification's own Morton code.",
- "C14": "contains(p) <=> membership is an invariant of Multidim.tla for every cell; on recordings TLC checks every contains() answer for stored points and ~60 random cells per execution (below, between and above the stored codes).",
+ "C14": "contains(p) <=> membership is an invariant of Multidim.tla for every cell; on recordings TLC checks every contains() answer for stored points and ~60 random cells per execution (below, between and above the stored codes), for repeated and alternating hit/miss queries, and for boundary points asked as the first query of freshly built twins.",
  "C15": "the LSM invariants (strictly sorted levels, capacities, nothing beyond used_levels, index built on exactly the level's keys, reset of emptied levels' indexes) are TLC invariants of DynamicPGM.tla over all histories of the small configurations, with reachability witnesses against vacuity; on the code side the private layout is logged through a guarded friend accessor after every update and TLC evaluates the same invariants on it.",
- "C16": "Readers.tla explores every interleaving of the readers' Begin/RouteStep/Finish steps: results equal sequential results and no step writes shared state (a shared-memo variant must fail); recordings of 2..16 threads querying one object of each class are judged by TLC (each concurrent answer = the sequential answer, object unchanged); the recorder is ThreadSanitizer-instrumented, a race report aborts the recording and the trace is rejected.",
+ "C16": "Readers.tla explores every interleaving of the readers' Begin/RouteStep/Finish steps: results equal sequential results and no step writes shared state (a shared-memo variant must fail); recordings of 2..16 threads querying one so far unqueried object of each class (boundary probes first) are judged by TLC (each concurrent answer = the sequential answer of an identically built twin, object unchanged afterwards); the recorder is ThreadSanitizer-instrumented, a race report aborts the recording and the trace is rejected.",
  "C17": "InBounds invariants of PGMIndex / Variants / Multidim / Mapped / DynamicPGM decide the modelled unchecked-access sites on every input of their small universes; the quick corpora of all recorders (boundary sizes, boundary keys, iterators to end(), lifecycle histories) are executed by AddressSanitizer-instrumented binaries, TLC accepts a recording only if every execution reached its End line and every logged index lies inside its structure.",
  "C18": "the static wrapper is bound to PGMIndex.tla (EpsRec = 4, run-time epsilon 1..3 in the model; 1,2,7,64,4096 in recordings) and the dynamic wrapper to DynamicPGM.tla's ordered-map meaning: a C-linkage client records create/search/destroy and create/insert_or_assign/erase/find/lower_bound/begin/iterator_next/size call sequences, TLC judges every result.",
  "C19": "Lifecycle.tla explores every history of <= 5-6 copy/move/destroy/mutate/query operations over 3 object slots: no live object refers to another object's storage, no query dangles, values change only by the object's own mutation or assignment (member-wise copy variant must fail); every TLC history of 4 operations is executed on the real classes (heap objects, ASan), after each step the answer class of every live object is judged by TLC against the value it must hold.",
